@@ -501,6 +501,10 @@ func varDoc(arg string, vt *gen.TypeRef, def *gen.Value, nest int) *gen.Doc {
 		val = gen.ObjV(gen.Arg{Name: "a", Val: gen.VarV("v")})
 	case 3:
 		val = gen.ObjV(gen.Arg{Name: "a", Val: gen.IntV(1)}, gen.Arg{Name: "b", Val: gen.ListV(gen.VarV("v"))})
+	case 4: // a field after a list-valued field
+		val = gen.ObjV(gen.Arg{Name: "b", Val: gen.ListV(gen.IntV(1))}, gen.Arg{Name: "a", Val: gen.VarV("v")})
+	case 5: // a field after a nested object and a list of lists
+		val = gen.ObjV(gen.Arg{Name: "d", Val: gen.ObjV(gen.Arg{Name: "k", Val: gen.StrV("s")})}, gen.Arg{Name: "b", Val: gen.ListV(gen.ListV(gen.IntV(1)))}, gen.Arg{Name: "a", Val: gen.VarV("v")})
 	}
 	op := &gen.Op{Kind: "query", Vars: []*gen.VarDef{{Name: "v", Type: vt, Default: def}}, Sel: []*gen.Sel{{Kind: gen.SField, Name: "g", Args: []gen.Arg{{Name: arg, Val: val}}}}}
 	return &gen.Doc{Ops: []*gen.Op{op}}
@@ -718,7 +722,7 @@ func run(c *core.Ctx) {
 				c.R.Transitions++
 			}
 			for ti, vt := range varTypeMenu {
-				for nest := 0; nest < 4; nest++ {
+				for nest := 0; nest < 6; nest++ {
 					for def := 0; def < 3; def++ {
 						n++
 						if !c.Mine(n) {
